@@ -1218,12 +1218,19 @@ class XEvaluator(Evaluator):
         self.mod_stack.append(c.mod if c.mod is not None else self.cur_mod)
         try:
             denv = c.env if c.env is not None else Env()
+            # a default is evaluated once, when the function is defined: a mutable default is one object for every call
+            cache = self.__dict__.setdefault("_default_cache", {})
+
+            def default_of(d):
+                if id(d) not in cache:
+                    cache[id(d)] = self.expr(d, denv)
+                return cache[id(d)]
             for name, d in zip(params[len(params) - len(a.defaults):], a.defaults):
                 if not dict.__contains__(env, name):
-                    dict.__setitem__(env, name, self.expr(d, denv))
+                    dict.__setitem__(env, name, default_of(d))
             for x, d in zip(a.kwonlyargs, a.kw_defaults):
                 if not dict.__contains__(env, x.arg) and d is not None:
-                    dict.__setitem__(env, x.arg, self.expr(d, denv))
+                    dict.__setitem__(env, x.arg, default_of(d))
         finally:
             self.mod_stack.pop()
         missing = [n for n in params + [x.arg for x in a.kwonlyargs] if not dict.__contains__(env, n)]
